@@ -168,16 +168,16 @@ Theorem C17_publish_oracle_sound : forall url_ok fs st p got sid seen ops outs,
 Proof. exact oracle_sound_request. Qed.
 Print Assumptions C17_publish_oracle_sound.
 
-(* the guard is needed (known finding): "/a /b/.." is looked up under "/a " and published under "/a",
-   so the same request pulls a second time *)
-Theorem C17_publish_unstable_refuted :
+(* after the fix "CanonicalPath is idempotent": the former witness "/a /b/.." (looked up under "/a ",
+   published under "/a", pulled a second time) is stable and the second request finds the first's stream *)
+Theorem C17_publish_unstable_fixed :
   let st := {| ps_reg := []; ps_tbl := unstable_tbl; ps_next := 0 |} in
-  pinv st = true /\ req_stable unstable_req = false /\
+  pinv st = true /\ req_stable unstable_req = true /\
   let st1 := fst (pstep (fun _ => true) [any_factory] st (PReq unstable_req)) in
   snd (pstep (fun _ => true) [any_factory] st (PReq unstable_req)) = POReq (GCreated [47; 97] [117] 0 true) (Some 0) [] /\
-  snd (pstep (fun _ => true) [any_factory] st1 (PReq unstable_req)) = POReq (GCreated [47; 97] [117] 0 true) (Some 1) [].
-Proof. exact publish_unstable_refuted. Qed.
-Print Assumptions C17_publish_unstable_refuted.
+  snd (pstep (fun _ => true) [any_factory] st1 (PReq unstable_req)) = POReq (GExisting 0) (Some 0) [].
+Proof. exact publish_unstable_fixed. Qed.
+Print Assumptions C17_publish_unstable_fixed.
 
 (* non-vacuity: directory route "/cam/" -> "r/x"; factories: one that refuses everything, one that
    accepts; the request " Cam//B" is well-formed, creates "/cam/b" from "r/x/b" with the SECOND factory
